@@ -284,6 +284,64 @@ func runC01(c *Ctx) {
 		}
 		c.Eval(uint64(f) > 0xFFFF, fmt.Sprint(op, uint64(f), arg))
 	})
+	// A2. directed: every byte of the 4- and 8-byte length prefixes matters. (i) round trips of
+	// payloads around 2^24 (oracle only: too large for the model run); (ii) headers announcing large
+	// lengths followed by a short body: model and implementation must both report the truncation.
+	c.Cases("biglen", c.N(4, 7), func(r *Rng, i int) {
+		n := []int{1 << 24, 1<<24 - 1, 1<<24 + 1, 1<<24 + 70001, 1<<25 + 3, 1<<26 + 5, 1 << 16}[i]
+		p := &com.Packet{ID: uint8(0x20 + i), Job: uint16(700 + i)}
+		copy(p.Device[:], r.Bytes(32))
+		p.Device[0] = 5
+		pay := r.Bytes(n)
+		p.Write(pay)
+		var bb bytes.Buffer
+		if err := p.Marshal(&bb); err != nil {
+			c.Fail("marshal", "marshal-error", "Marshal failed: "+err.Error(), n)
+			return
+		}
+		wire := append(bb.Bytes(), 0xEE, 0xEF)
+		pr := &PieceReader{P: [][]byte{wire[:40], wire[40:50], wire[50 : len(wire)/2], wire[len(wire)/2:]}}
+		var q com.Packet
+		if err := q.Unmarshal(pr); err != nil {
+			c.Fail("roundtrip", "unmarshal-error", fmt.Sprintf("payload of %d bytes: Unmarshal failed: %v", n, err), n)
+		} else if !bytes.Equal(q.Payload(), pay) {
+			c.Fail("roundtrip", "wire-field:payload", fmt.Sprintf("payload of %d bytes read back as %d bytes", n, len(q.Payload())), n)
+		} else if pr.Remaining() != 2 {
+			c.Fail("consumption", "wire-consumed-wrong", fmt.Sprintf("payload of %d bytes: %d bytes left, 2 trailing", n, pr.Remaining()), n)
+		}
+		c.Eval(true, fmt.Sprint("biglen", n))
+		c.Count("class:5-large")
+	})
+	c.Cases("lenhdr", 24, func(r *Rng, i int) {
+		var lens = []uint64{1 << 24, 1<<24 + 5, 0x01020304, 0xFF000000, 0x00FF0000, 0x0000FF00, 0xFFFFFFFF, 0x01000000,
+			1 << 32, 1<<32 + 3, 0x0102030405060708 & 0x7FFFFFFFFFFFFFFF, 1 << 40, 1 << 48, 1 << 56, 0x00FF000000000000, 0x0000FF0000000000,
+			0x000000FF00000000, 0x00000000FF000000, 70000, 65536, 0x00010000, 0x7FFFFFFF, 1<<32 - 1, 1 << 31}
+		L := lens[i]
+		hdr := make([]byte, 46)
+		copy(hdr, r.Bytes(32))
+		hdr[0] = 9
+		hdr[32] = 0x33
+		var lb []byte
+		if L < 1<<32 && i != 8 {
+			hdr[45] = 5
+			lb = []byte{byte(L >> 24), byte(L >> 16), byte(L >> 8), byte(L)}
+		} else {
+			hdr[45] = 7
+			lb = []byte{byte(L >> 56), byte(L >> 48), byte(L >> 40), byte(L >> 32), byte(L >> 24), byte(L >> 16), byte(L >> 8), byte(L)}
+		}
+		wire := append(append(hdr, lb...), r.Bytes(20)...)
+		pcs := r.Split(wire)
+		pr := &PieceReader{P: append([][]byte(nil), pcs...)}
+		var q com.Packet
+		err := q.Unmarshal(pr)
+		out := "err " + pktErr(err)
+		if err == nil {
+			out = "ok " + pktTok(&q)
+			c.Fail("truncation", "short-body-accepted", fmt.Sprintf("header announces %d payload bytes, 20 follow, Unmarshal returned no error (payload %d bytes)", L, len(q.Payload())), hx(wire))
+		}
+		c.Op(fmt.Sprintf("unmarshal 1 %s", hxChunks(pcs)), out+remStr(err == nil, pr.Remaining()))
+		c.Eval(true, fmt.Sprint("lenhdr", L))
+	})
 	// B. wire form round trip, concatenation, short reads
 	c.Cases("wire", c.N(700, 12000), func(r *Rng, i int) {
 		big := r.Chance(c.N(6, 12))
